@@ -67,6 +67,8 @@ class ClientPlan(object):
         self.last_call = None
         self.last_fwd_kind = None
         self.n_calls = 0
+        self.last_x = None        # base point of the previous driver call
+        self.last_base = None     # base points of the previous forward evaluation
 
 
 def make_client_config(rng, focus, idx):
@@ -93,6 +95,8 @@ def make_client_config(rng, focus, idx):
     else:
         n_in = [N] if rng.random() < 0.6 else [N, rng.randint(2, 4)]
         outs = [rng.choice([(), (rng.randint(1, 3),)]) for _ in range(rng.choice([1, 1, 2]))]
+        if len(n_in) == 1 and rng.random() < 0.3:
+            outs = [(N,)]
     size = rng.choice([4, 6, 8, 10, 12, 16, 20, 24, 30])
     truth_only = focus == 'C04' and not probe and rng.random() < 0.8
     prog = programs.gen_program(rng, fam, n_in, outs, size, truth_only=truth_only)
@@ -176,7 +180,11 @@ def make_run(focus, seed):
         if not kinds:
             return None
         n_faults[0] += 1
-        return {'kind': rng.choice(kinds), 'frac': rng.random(), 'exc': rng.choice(['exc', 'base'])}
+        # line faults: uniformly over the executed line events ('event'), or uniformly over the
+        # distinct source lines the call visits and then over that line's visits ('loc') -- the
+        # latter gives rarely executed lines (one particular kernel) the same chance as hot loops
+        return {'kind': rng.choice(kinds), 'frac': rng.random(), 'frac2': rng.random(),
+                'by': rng.choice(['event', 'loc', 'loc']), 'exc': rng.choice(['exc', 'base'])}
 
     def input_spec(c, j, n, kind, D, P, vals):
         """Which caller-owned object carries the values: a new one, or one the
@@ -199,15 +207,33 @@ def make_run(focus, seed):
         if c.last_fwd_kind == (kind, D, P) and rng.random() < 0.5:
             kind = 'utpm'
             D, P = rand_DP(rng)
+        feedback = False
+        if (not poison and len(prog['n_in']) == 1 and len(prog['out_shapes']) == 1
+                and prog['out_shapes'][0] == [prog['n_in'][0]] and c.last_fwd_kind is not None
+                and c.last_fwd_kind[0] in ('nd', 'utpm') and rng.random() < 0.4):
+            # fixed-point style use: the object the previous evaluation returned is passed
+            # straight back in (same kind, D, P; the values are whatever it holds by then)
+            feedback = True
+            kind, D, P = c.last_fwd_kind
         step = {'op': 'fwd', 'c': c.idx, 'api': rng.choice(['function', 'pushforward']), 'errstate': False,
                 'wrong_len': False}
         ins = []
+        # sometimes the same base point as the previous evaluation, with other directions /
+        # higher coefficients or another kind: a result must not be keyed on the point alone
+        same_base = c.last_base is not None and not poison and rng.random() < 0.25
+        bases = []
         for j, n in enumerate(prog['n_in']):
+            base = list(c.last_base[j]) if same_base else point(rng, n)
+            bases.append(base)
             if kind == 'nd':
-                vals = point(rng, n)
+                vals = list(base)
             else:
-                vals = utpm_values(rng, D, P, n)
+                vals = utpm_values(rng, D, P, n, base=base)
             ins.append(input_spec(c, j, n, kind, D, P, vals))
+        if not poison:
+            c.last_base = bases
+        if feedback:
+            ins[0]['mode'] = 'feedback'
         if poison:
             # (a wrong-*length* input is not in the vocabulary: the drivers take the
             # output size from the dependent's current value by design, and C05/C06
@@ -245,6 +271,8 @@ def make_run(focus, seed):
             hints.append((c.idx, 'fwd'))
             hints.append((c.idx, 'rev'))
         if step['fault'] is not None:
+            # first another bare sweep on the same forward state, then a fresh evaluation
+            hints.insert(0, (c.idx, 'rev'))
             hints.append((c.idx, rng.choice(['drv', 'fwd'])))
             hints.append((c.idx, 'rev'))
 
@@ -261,13 +289,16 @@ def make_run(focus, seed):
                 names.append('vec_hess_vec')
         name = rng.choice(names)
         M = 1 if len(osh) == 0 else osh[0]
-        step = {'op': 'drv', 'c': c.idx, 'name': name, 'x': point(rng, N), 'v': None, 'w': None,
+        # sometimes the previous driver's point again, with other vectors v, w or another driver
+        x = list(c.last_x) if (c.last_x is not None and rng.random() < 0.3) else point(rng, N)
+        c.last_x = x
+        step = {'op': 'drv', 'c': c.idx, 'name': name, 'x': list(x), 'v': None, 'w': None,
                 'xlist': False}
         if name == 'gradient' and rng.random() < 0.25:
             step['xlist'] = True
         if name == 'jacobian_utpm':
             D, P = rng.choice([1, 2, 2, 3]), rng.choice([1, 1, 2, 3])
-            step['x'] = utpm_values(rng, D, P, N)
+            step['x'] = utpm_values(rng, D, P, N, base=x)
             step['D'] = D
             step['P'] = P
         if name in ('jac_vec', 'hess_vec', 'vec_hess_vec'):
@@ -338,6 +369,12 @@ def make_run(focus, seed):
             plan.append({'op': 'new_graph', 'c': c.idx})
             c.state = 'fresh'
             ptr[0] = c.idx
+            return
+        if ptr[0] is not None and ptr[0] != c.idx and rng.random() < 0.06:
+            # trace_off() through a graph that is not the one recording: recording is a
+            # process-global switch, so this turns it off for whoever had it
+            plan.append({'op': 'toff', 'c': c.idx})
+            ptr[0] = None
             return
         if c.state in ('fresh', 'recording'):
             if c.state == 'recording' and ptr[0] is None and rng.random() < 0.15 * (W['rec_off'] > 0):
